@@ -234,7 +234,7 @@ func VerifFiles(kv map[string]string) string {
 
 type verifKeyPair struct{ cert, key []byte }
 
-var verifPairs []verifKeyPair
+var verifPairs = map[string]verifKeyPair{}
 
 func verifGenPair(cn string) verifKeyPair {
 	k, _ := ecdsa.GenerateKey(elliptic.P256(), rand.Reader)
@@ -246,11 +246,15 @@ func verifGenPair(cn string) verifKeyPair {
 	return verifKeyPair{pem.EncodeToMemory(&pem.Block{Type: "CERTIFICATE", Bytes: der}), pem.EncodeToMemory(&pem.Block{Type: "EC PRIVATE KEY", Bytes: kb})}
 }
 
-func verifPair(i int) verifKeyPair {
-	for len(verifPairs) < 4 {
-		verifPairs = append(verifPairs, verifGenPair(fmt.Sprintf("v%d", len(verifPairs))))
+// verifPair returns a key pair that is unique to the label (secret key + version), so that the content of
+// a derived file identifies the secret version it came from.
+func verifPair(label string) verifKeyPair {
+	p, ok := verifPairs[label]
+	if !ok {
+		p = verifGenPair(label)
+		verifPairs[label] = p
 	}
-	return verifPairs[i%4]
+	return p
 }
 
 // verifSecret builds a Secret: typ tls|jwk|htp|ca|oidc|api|lic|opaque, payload ok|mismatch|nonpem|missing|dup, version n.
@@ -261,11 +265,11 @@ func verifSecret(ns, name, typ, payload string, ver int) *api_v1.Secret {
 	switch typ {
 	case "tls":
 		s.Type = api_v1.SecretTypeTLS
-		p := verifPair(ver)
+		p := verifPair(string(tag))
 		s.Data[api_v1.TLSCertKey], s.Data[api_v1.TLSPrivateKeyKey] = p.cert, p.key
 		switch payload {
 		case "mismatch":
-			s.Data[api_v1.TLSPrivateKeyKey] = verifPair(ver + 1).key
+			s.Data[api_v1.TLSPrivateKeyKey] = verifPair(string(tag) + "-other").key
 		case "nonpem":
 			s.Data[api_v1.TLSCertKey] = tag
 		case "missing":
@@ -283,7 +287,8 @@ func verifSecret(ns, name, typ, payload string, ver int) *api_v1.Secret {
 		}
 	case "ca":
 		s.Type = secrets.SecretTypeCA
-		s.Data[secrets.CAKey] = verifPair(ver).cert
+		s.Data[secrets.CAKey] = verifPair(string(tag)).cert
+		s.Data[CACrlKey] = append([]byte("crl of "), tag...)
 		switch payload {
 		case "nonpem":
 			s.Data[secrets.CAKey] = tag
